@@ -199,8 +199,15 @@ def _str_to_set(
         return cast(set[str], set())
     if isinstance(value, str):
         return {value}
+    if isinstance(value, dict):
+        # A table is not a collection of values. Let the validator report it.
+        return cast(set[_T], value)
     if hasattr(value, "__iter__"):
-        return set(value)
+        try:
+            return set(value)
+        except TypeError:
+            # Unhashable items, e.g. tables. Let the validator report it.
+            return cast(set[_T], value)
     return {value}
 
 
@@ -407,6 +414,19 @@ class ReuseTOML(GlobalLicensing):
         new_dict["source"] = source
 
         annotation_dicts = values.get("annotations", [])
+        if not isinstance(annotation_dicts, list) or not all(
+            isinstance(annotation, dict) for annotation in annotation_dicts
+        ):
+            raise GlobalLicensingParseTypeError(
+                _(
+                    "'annotations' must be an array of tables (got {value}"
+                    " that is a {value_class})."
+                ).format(
+                    value=repr(annotation_dicts),
+                    value_class=repr(annotation_dicts.__class__),
+                ),
+                source=source,
+            )
         try:
             annotations = [
                 AnnotationsItem.from_dict(annotation)
